@@ -55,7 +55,7 @@ TRANSPARENT_FUNCS = {"numpy.copy", "copy.deepcopy", "copy.copy", "numpy.asarray"
 # private helpers that rules name as atoms (anchors of obligations): calls to them stay calls.  Any *other* private
 # repository function (a helper a maintainer extracted) and every nested def is substituted at its call site, so that
 # "extract helper" / "inline helper" refactorings leave the normal form unchanged.
-from .atoms import KNOWN_ATOMS  # noqa: E402
+from .atoms import KNOWN_ATOMS, is_atom  # noqa: E402
 AUTO_INLINE_DEPTH = 4
 
 # positional parameter names (and constant defaults) of the external functions the package calls with keywords
@@ -75,6 +75,42 @@ EXTERNAL_SIGS = {
     "numpy.argsort": ("a", "axis"),
     "numpy.interp": ("x", "xp", "fp"),
     "numpy.clip": ("a", "a_min", "a_max"),
+    # pandapower functions the package calls (leading positional parameters, from pandapower's source)
+    "pandapower.auxiliary.get_indices": ("selection", "lookup", "fused_indices"),
+    "pandapower.control.prepare_run_ctrl": ("net", "ctrl_variables"),
+    "pandapower.control.run_control.prepare_run_ctrl": ("net", "ctrl_variables"),
+    "pandapower.control.run_control": ("net", "ctrl_variables", "max_iter"),
+    "pandapower.control.run_control._evaluate_net": ("net", "levelorder", "ctrl_variables"),
+    "pandapower.control.run_control.control_implementation": ("net", "controller_order", "ctrl_variables", "max_iter", "evaluate_net_fct"),
+    "pandapower.control.run_control.get_controller_order": ("nets", "controller"),
+    "pandapower.control.run_control.net_initialization": ("net", "ctrl_variables"),
+    "pandapower.control.ConstControl": ("net", "element", "variable", "element_index", "profile_name", "data_source", "scale_factor",
+                                        "in_service", "recycle", "order", "level"),
+    "pandapower.convert_format.convert_format": ("net", "elements_to_deserialize", "drop_invalid_geodata"),
+    "pandapower.create._check_branch_element": ("net", "element_name", "index", "from_node", "to_node", "node_name", "plural"),
+    "pandapower.create._check_element": ("net", "element_index", "element"),
+    "pandapower.create._check_multiple_branch_elements": ("net", "from_nodes", "to_nodes", "element_name", "node_name", "plural"),
+    "pandapower.create._check_multiple_elements": ("net", "element_indices", "element", "name"),
+    "pandapower.create._get_index_with_check": ("net", "table", "index", "name"),
+    "pandapower.create._get_multiple_index_with_check": ("net", "table", "index", "number", "name"),
+    "pandapower.io_utils.decrypt_string": ("s", "key"),
+    "pandapower.io_utils.encrypt_string": ("s", "key", "compress"),
+    "pandapower.io_utils.isinstance_partial": ("obj", "cls"),
+    "pandapower.io_utils.to_dict_with_coord_transform": ("net", "point_geo_columns", "line_geo_columns"),
+    "pandapower.io_utils.transform_net_with_df_and_geo": ("net", "point_geo_columns", "line_geo_columns"),
+    "pandapower.io_utils.with_signature": ("obj", "val", "obj_module", "obj_class"),
+    "pandapower.timeseries.output_writer.OutputWriter": ("net", "time_steps", "output_path", "output_file_type", "write_time", "log_variables"),
+    "pandapower.timeseries.run_time_series.cleanup": ("net", "ts_variables"),
+    "pandapower.timeseries.run_time_series.init_default_outputwriter": ("net", "time_steps"),
+    "pandapower.timeseries.run_time_series.init_output_writer": ("net", "time_steps"),
+    "pandapower.timeseries.run_time_series.init_time_series": ("net", "time_steps", "continue_on_divergence", "verbose"),
+    "pandapower.timeseries.run_time_series.init_time_steps": ("net", "time_steps"),
+    "pandapower.timeseries.run_time_series.output_writer_routine": ("net", "time_step", "pf_converged", "ctrl_converged", "recycle_options"),
+    "pandapower.timeseries.run_time_series.print_progress": ("i", "time_step", "time_steps", "verbose"),
+    "pandapower.timeseries.run_time_series.run_time_step": ("net", "time_step", "ts_variables", "run_control_fct", "output_writer_fct"),
+    "pandapower.toolbox.dataframes_equal": ("df1", "df2", "ignore_index_order", "assume_geojson_strings"),
+    "pandapower.topology.create_graph.add_edges": ("mg", "indices", "parameter", "in_service", "net", "element"),
+    "pandapower.topology.create_graph.get_edge_table": ("net", "table_name", "include_edges"),
 }
 
 STR_METHODS = {"startswith", "endswith", "split", "rsplit", "lower", "upper", "strip", "lstrip", "rstrip", "replace", "title",
@@ -708,13 +744,16 @@ class ANF:
             else:
                 elt = self.eval(e.elt, e2, cond, loops)
             t = _renumber(("comp", type(e).__name__, elt, tuple(gens)))
-            if not isinstance(e, ast.DictComp) and all(g_[1][0] in ("list", "tuple") and len(g_[1][1]) <= 16 for g_ in t[3]):
+            if all(g_[1][0] in ("list", "tuple") and len(g_[1][1]) <= 16 for g_ in t[3]):
                 # a comprehension over a display is the display of its elements (like the unrolled loop)
                 try:
                     items = expand_comp(t)
                 except Exception:       # noqa
                     items = None
-                if items is not None:
+                if items is not None and isinstance(e, ast.DictComp):
+                    if items and all(i_[0] == "kv" for i_ in items):
+                        return ("dict", tuple((i_[1], i_[2]) for i_ in items))
+                elif items is not None:
                     return ("set" if isinstance(e, ast.SetComp) else "list", tuple(items))
             return t
         if isinstance(e, ast.Call):
@@ -928,7 +967,7 @@ class ANF:
     def _auto_inlinable(self, qual):
         """a private repository helper that no rule names as an atom: substituted at the call site"""
         short = qual.rsplit(".", 1)[-1]
-        if not short.startswith("_") or short.startswith("__") or short in KNOWN_ATOMS:
+        if is_atom(short):
             return False
         if self._depth >= AUTO_INLINE_DEPTH or qual in self._stack or qual == self.fi.qualname:
             return False
